@@ -33,7 +33,10 @@ def prepare(tier, seed):
 
 def jobs(tier, seed):
     nmax = 5 if tier == 'quick' else 9
-    return [dict(name=f'patterns-n{n}', kind='patterns', n=n) for n in range(1, nmax + 1)] + [dict(name='step-lemma', kind='step'), dict(name='ets-writer', kind='ets')]
+    js = [dict(name=f'patterns-n{n}', kind='patterns', n=n) for n in range(1, nmax + 1)]
+    # histories: the documented workflow check(nb_traces) -> run() on the same object
+    js += [dict(name=f'patterns-n{n}-after-check', kind='patterns', n=n, pre_check=2) for n in range(1, (3 if tier == 'quick' else 6) + 1)]
+    return js + [dict(name='step-lemma', kind='step'), dict(name='ets-writer', kind='ets')]
 
 
 class RecWriter(estraces.TraceHeaderSet):
@@ -67,7 +70,11 @@ def job_patterns(job, res):
         pattern = []
         ret = {}
 
+        phase = ['run']
+
         def fn(trace_object):
+            if phase[0] == 'check':            # during check() the function accepts every sampled trace
+                return rnp.array([trace_object.id], dtype='int32')
             c = ex.choose(3)
             pattern.append('ARN'[c])
             if c == 1:
@@ -80,6 +87,10 @@ def job_patterns(job, res):
         ths = _input(n)
         out = RecWriter()
         sy = Sy.Synchronizer(ths, out, fn)
+        if job.get('pre_check'):
+            phase[0] = 'check'
+            sy.check(nb_traces=job['pre_check'])
+            phase[0] = 'run'
         r = sy.run()
         acc = [i for i, c in enumerate(pattern) if c == 'A']
         okrows = len(out.rows) == len(acc) and all(idx == j and tid == i and pts is ret[i] and [int(v) for v in S._w(meta['plaintext']).typed()] == [100 + 2 * i, 101 + 2 * i]
@@ -93,8 +104,8 @@ def job_patterns(job, res):
         except Exception:
             refused = False
         ok = okrows and okcnt and refused and out.closed == 1 and r is out.reader and sy.processed_counter == n and len(out.rows) == len(acc)
-        pr.prove(z3.BoolVal(bool(ok)), f'pattern {"".join(pattern)} (A accept, R raise, N None): written rows == accepted traces in order with own metadata and points; counters ({sy.processed_counter}, {sy.synchronized_counter}) == ({n}, {len(acc)}); second run() refused',
-                 lambda m: dict(kind='pattern', pattern=''.join(pattern), key=dict(kind='pattern')), sample=(pattern == list('ANR'[:n])))
+        pr.prove(z3.BoolVal(bool(ok)), f'{"check(" + str(job["pre_check"]) + ") then run(), " if job.get("pre_check") else ""}pattern {"".join(pattern)} (A accept, R raise, N None): written rows == accepted traces in order with own metadata and points; counters ({sy.processed_counter}, {sy.synchronized_counter}) == ({n}, {len(acc)}); second run() refused',
+                 lambda m: dict(kind='pattern', pattern=''.join(pattern), pre_check=job.get('pre_check', 0), key=dict(kind='pattern')), sample=(pattern == list('ANR'[:n])))
     explore(res, body, max_paths=25000, timeout_ms=10000)        # 3^n patterns: 19683 for n = 9
 
 
@@ -132,7 +143,7 @@ def job_step(job, res):
     explore(res, body, max_paths=100, timeout_ms=10000)
 
 
-def run_real(SyncCls, ErrCls, pattern, as_path, tmp):
+def run_real(SyncCls, ErrCls, pattern, as_path, tmp, pre_check=0):
     """Real estraces input, real ETS writer.  Returns a list of problems (empty = fine)."""
     import warnings
     import pathlib
@@ -141,7 +152,11 @@ def run_real(SyncCls, ErrCls, pattern, as_path, tmp):
     ths = estraces.read_ths_from_ram(samples=rnp.arange(n * 3, dtype='uint8').reshape(n, 3), plaintext=(rnp.arange(n * 2, dtype='uint8').reshape(n, 2) + 100))
     seen = []
 
+    phase = ['run']
+
     def fn(trace_object):
+        if phase[0] == 'check':
+            return rnp.array([1, 2], dtype='uint8')
         i = len(seen)
         seen.append(i)
         c = pattern[i]
@@ -154,6 +169,10 @@ def run_real(SyncCls, ErrCls, pattern, as_path, tmp):
     sy = SyncCls(ths, pathlib.Path(fnm) if as_path else fnm, fn, overwrite=True)
     acc = [i for i, c in enumerate(pattern) if c == 'A']
     problems = []
+    if pre_check:
+        phase[0] = 'check'
+        sy.check(nb_traces=pre_check)
+        phase[0] = 'run'
     try:
         out = sy.run()
     except Exception as e_:
@@ -215,7 +234,7 @@ def replay(w):
         pat = w['pattern'] if w['kind'] != 'step' else w['pattern']
         probs = []
         for as_path in (False, True):
-            probs += run_real(scared.Synchronizer, scared.SynchronizerError, list(pat), as_path, tmp)
-        return dict(reproduced=bool(probs), detail=f'pattern {pat}: {probs[:3]}')
+            probs += run_real(scared.Synchronizer, scared.SynchronizerError, list(pat), as_path, tmp, pre_check=w.get('pre_check', 0))
+        return dict(reproduced=bool(probs), detail=f'{"check() then run(), " if w.get("pre_check") else ""}pattern {pat}: {probs[:3]}')
     finally:
         shutil.rmtree(tmp, ignore_errors=True)
